@@ -32,6 +32,13 @@ def evalConc (prop : String) (ins outs : List String) : Verdict :=
     | some "found" => .ok (if noHead then "gated-nohead" else "gated")
     | some r => .prop "c12_no_lost_wakeup" s!"gated replay: {" ".intercalate ins} => {r}"
     | none => .bad "gated"
+  | some "slowlookup" =>
+    match kv? outs "parkedA", kv? outs "b", kv? outs "c" with
+    | some "yes", some b, some c =>
+      if b != "cancelled" then .prop "c12_cancel_releases" s!"a parked reader whose context was cancelled while ANOTHER reader's lookup was slow: {b}" else
+      if c != "found" then .prop "c12_no_lost_wakeup" s!"a parked reader whose header was appended while ANOTHER reader's lookup was slow: {c}" else .ok "slowlookup"
+    | some _, _, _ => .bad "slowlookup: the schedule was not reached"
+    | _, _, _ => .bad "slowlookup fields"
   | some "tailrace" =>
     match kvNat? ins "t0", kvNat? ins "to", kvNat? ins "n", kv? outs "delete", kv? outs "sync", kvNat? outs "head", kvNat? outs "tail",
           (kv? outs "stored").bind natList? with
